@@ -45,7 +45,7 @@ def gen_spec(rng):
 
 
 class World:
-    def __init__(self, spec):
+    def __init__(self, spec, dbfile=None):
         self.spec = spec
         _world_counter[0] += 1
         self.modname = 'c11w_%d' % _world_counter[0]
@@ -72,7 +72,8 @@ class World:
         exec(self.source, ns)
         self.classes = [ns['E%d' % c] for c in range(len(parents))]
         self.E0 = self.classes[0]; self.R = ns['R']; self.H = ns.get('H')
-        db.bind('sqlite', ':memory:')
+        if dbfile is None: db.bind('sqlite', ':memory:')
+        else: db.bind('sqlite', dbfile, create_db=True)
         db.generate_mapping(create_tables=True)
         E0 = self.E0
         self.attrs = [getattr(E0, 'a%d' % i) for i in range(n)]
